@@ -49,6 +49,8 @@ def sweep(tier, seed):
     # --- test results, overall and by labels
     lab_opts = [None, 0, 1]
     res_opts = [(ok, x, y) for ok in (True, False) for x in lab_opts for y in lab_opts]
+    # reserved label names used as ordinary labels must not disturb the classification by verdict
+    reserved = [{'_result': 'whatever'}, {'_result': 0}, {'_test_name': 'n'}, {'_result': 1, '_test_name': 'n'}]
     selections = [('x',), ('y',), ('x', 'y'), ('y', 'x')]
     shapes = []
     for k in range(0, (2 if tier == 'quick' else 3) + 1):
@@ -64,6 +66,8 @@ def sweep(tier, seed):
                     for c in combo[pos:pos + size]:
                         ok, x, y = res_opts[c]
                         labels = {k2: f'{k2}{v}' for k2, v in (('x', x), ('y', y)) if v is not None}
+                        if (len(results) + c) % 5 == 0:
+                            labels.update(reserved[(len(results) + c) % len(reserved)])
                         r = Tst(f't{len(results)}', ok, labels).evaluate()
                         results.append((r, ok, labels))
                         grp.append(r)
